@@ -51,6 +51,7 @@ type FnVC struct {
 	modGlobals []string
 	seqCache   map[string]Term
 	exclAx     map[string]bool
+	typedSeen  map[string]bool
 }
 
 type InputVar struct {
